@@ -2359,7 +2359,11 @@ class Head(Expr):
     def _simplify_up(self, parent, dependents):
         from dask_expr import Repartition
 
-        if isinstance(parent, Repartition) and parent.new_partitions == 1:
+        if (
+            isinstance(parent, Repartition)
+            and "new_partitions" in parent._parameters
+            and parent.new_partitions == 1
+        ):
             return self
 
     def _lower(self):
@@ -2468,7 +2472,11 @@ class Tail(Expr):
     def _simplify_up(self, parent, dependents):
         from dask_expr import Repartition
 
-        if isinstance(parent, Repartition) and parent.new_partitions == 1:
+        if (
+            isinstance(parent, Repartition)
+            and "new_partitions" in parent._parameters
+            and parent.new_partitions == 1
+        ):
             return self
 
     def _lower(self):
